@@ -8,6 +8,7 @@ import QiVerif.Driver.Codec
 import QiVerif.Driver.C07
 import QiVerif.Driver.C17
 import QiVerif.Driver.C10
+import QiVerif.Driver.C11
 open QiVerif.Driver
 
 /-- parameters handed over by ./check from the regenerated constants -/
@@ -18,6 +19,7 @@ structure Params where
 structure DState where
   svc : QiVerif.Service.Svc := {}
   ep : C17.St := {}
+  cl : QiVerif.Client.W := {}
 
 def dispatch (p : Params) (st : DState) (line : String) : DState × String :=
   let ws := words line
@@ -38,6 +40,9 @@ def dispatch (p : Params) (st : DState) (line : String) : DState × String :=
     else if op.startsWith "rd." || op.startsWith "val." || op.startsWith "enc." || op.startsWith "dec." then
       (st, Codec.run ws)
     else if op.startsWith "c10." then (st, C10.run ws)
+    else if op.startsWith "cl." then
+      let (s', out) := C11.run st.cl ws
+      ({ st with cl := s' }, out)
     else if op.startsWith "ep." then
       let (s', out) := C17.run st.ep ws
       ({ st with ep := s' }, out)
